@@ -267,6 +267,11 @@ def run(ctx):
     if r.timeout or "BTerminates was violated" not in r.out:
         raise Infra("BTerminates is vacuous: the negative configuration MC_SyncB_nolisten.cfg did not violate it (%s)" % (r.error or "passed"))
     ctx.cov["liveness_negative_config"] = "MC_SyncB_nolisten.cfg violates BTerminates as it must (%d states)" % r.distinct
+    r = ctx.tlc("net", "Sync", cfg="MC_SyncB_nofetchlisten.cfg", workers=w, timeout=900, count=False,
+                label="(B) NEGATIVE: fetcher ignores the cancel => download does not return")
+    if r.timeout or "BTerminates was violated" not in r.out:
+        raise Infra("BTerminates is vacuous for the fetch stage: MC_SyncB_nofetchlisten.cfg did not violate it (%s)" % (r.error or "passed"))
+    ctx.cov["liveness_negative_config_fetch"] = "MC_SyncB_nofetchlisten.cfg violates BTerminates as it must (%d states)" % r.distinct
     ctx.tlc_must_hold("net", "Sync", cfg="MC_SyncC.cfg", workers=w, timeout=300, label="(C) message codes x classes")
 
     drifts = []
@@ -316,6 +321,7 @@ def run(ctx):
         ctx.cov["download_converged_to_preferred_remote"] = sum(1 for c in cases if c["fault"] == "none" and c["prefers"] and c["converged"])
         ctx.cov["download_remote_not_preferred_kept_local"] = sum(1 for c in cases if c["fault"] == "none" and not c["prefers"] and c["status"] == "ok")
         ctx.cov["download_multi_batch"] = sum(1 for c in cases if c["fetches"] >= 3)
+        ctx.cov["download_abort_with_many_batches_left"] = [(c["fault"], c["status"], c["fetches"]) for c in cases if c["fault"].startswith("flood-")]
         ctx.cov["download_handler_error_with_full_pipeline_ms"] = [c["elapsedMs"] for c in cases if c["fault"] == "flood"]
         ctx.cov["download_exact_score_ties"] = [(c["label"], c["converged"]) for c in cases if c["label"].startswith("tie")]
         ctx.cov["download_lying_id_answers"] = sorted({c["fault"] for c in cases if c["fault"].startswith("liar:")})
